@@ -910,3 +910,74 @@ Fixpoint sr_throttled (rs : list srun) : list N :=
                  | None => sr_hook r :: sr_throttled rest
                  end
   end.
+
+(* ======================================================================================
+   (5) The SHAPE of a hook's configuration and the limiter the hook is loaded with.
+
+   Go anchors:
+     pkg/hook/hook.go          Hook.LoadConfig:  h.Config, err = config.LoadAndValidate(...)
+                                                 h.RateLimiter = CreateRateLimiter(h.Config)
+     pkg/hook/hook.go          CreateRateLimiter(cfg *config.HookConfig) is handed the WHOLE
+         configuration of the hook - OnStartup, Schedules, OnKubernetesEvents (each with its
+         group, queue, executeHookOnSynchronization ...), admission / conversion bindings,
+         Settings - and reads cfg.Settings and nothing else                -> [create_rate_limiter_hc]
+     pkg/hook/hook_manager.go  one Hook (hence one limiter) per hook file, found by name
+                                                                           -> [load_limiters]
+     pkg/shell-operator/operator.go  the start-up of the operator is the Boot action of the
+         task-flow model above: EnableKubernetesBindings puts one Synchronization task per
+         kubernetes binding at the head of "main", each of them - executed, combined with its
+         group mates or skipped (executeHookOnSynchronization: false) - passes the limiter
+         call of taskHandleHookRun first                                   -> [run_shape]
+
+   A hook configuration here is the hook of the task-flow model (its kubernetes and schedule
+   bindings with queues, groups, allowFailure, executeHookOnSynchronization, its onStartup
+   order) together with the settings it carries. *)
+Record hook_config := mkHC { hc_shape : hook; hc_settings : option settings }.
+
+Definition hc_id (hc : hook_config) : N := h_id (hc_shape hc).
+
+(* CreateRateLimiter on the whole configuration *)
+Definition create_rate_limiter_hc (hc : hook_config) : bucket :=
+  create_rate_limiter (hc_settings hc).
+
+(* Hook.RateLimiter of every loaded hook (a hook that is not loaded has no tasks: its limiter
+   is never asked) *)
+Definition load_limiters (hcs : list hook_config) : limiters :=
+  fun h => match find (fun hc => N.eqb (hc_id hc) h) hcs with
+           | Some hc => create_rate_limiter_hc hc
+           | None => create_rate_limiter None
+           end.
+
+Definition shape_config (hcs : list hook_config) : config := map hc_shape hcs.
+
+(* the (I, B) each hook was configured with, as the property text reads them *)
+Definition configured_settings (hcs : list hook_config) : hook_settings :=
+  map (fun hc => (hc_id hc, hc_settings hc)) hcs.
+
+Definition init_shape (hcs : list hook_config) : lstate := mkL init [] (load_limiters hcs) [] false.
+
+(* the operator with hooks of these shapes, run on a script of timed actions (Boot - the
+   start-up with its Synchronization runs -, ticks, kubernetes events, ends of executions,
+   time passing) *)
+Definition run_shape (hcs : list hook_config) (script : list (Z * action)) : lstate :=
+  run_lim (shape_config hcs) (init_shape hcs) script.
+
+(* what a hook's shape asks of the start-up: the number of Synchronization EXECUTIONS when
+   nothing else is in the queue - one per kubernetes binding with executeHookOnSynchronization,
+   a grouped one takes everything of the hook that follows it along (up to a binding that is
+   exempt from Synchronization).  Used for tags and examples; the limiter does not know it. *)
+Fixpoint sync_runs_from (ts : list task) (fuel : nat) : nat :=
+  match fuel with
+  | O => O
+  | S fuel' =>
+      match ts with
+      | [] => O
+      | t :: rest =>
+          if should_run false t then
+            if should_combine t then S (sync_runs_from (snd (combine t rest)) fuel')
+            else S (sync_runs_from rest fuel')
+          else sync_runs_from rest fuel'
+      end
+  end.
+Definition sync_runs (h : hook) : nat :=
+  if h_v0 h then O else sync_runs_from (map (sync_task h) (h_kube h)) (length (h_kube h)).
